@@ -431,6 +431,11 @@ def dataclass_node_factory(
         )
     if "__dataclass_fields__" not in dataclass.__dict__:
         dataclass = as_dataclass(dataclass)
+    registered = dataclass_node_factory.class_registry.get(dataclass.__name__)
+    if registered is not None and registered.dataclass is not dataclass:
+        # Classes are registered by name: a different dataclass that happens to have
+        # the same name must not be handed the node class made for the earlier one
+        dataclass_node_factory.clear(dataclass.__name__)
     # Classes inheriting from a dataclass will pass the `dataclasses.is_dataclass` test
     # BUT they won't themselves _act_ as dataclass definitions! I.e. if you introduce
     # new fields in a sub-dataclass, or update defaults, this won't register _unless_
